@@ -339,7 +339,7 @@ func (x *Exec) libCall(key string, fn *types.Func, call *ast.CallExpr, recvExpr 
 			if rv := sig.Recv(); rv != nil {
 				if _, isPtr := rv.Type().(*types.Pointer); isPtr {
 					if rt := info.TypeOf(recvExpr); rt != nil {
-						if _, isIface := rt.Underlying().(*types.Interface); !isIface {
+						if _, isIface := rt.Underlying().(*types.Interface); !isIface && !isLibraryStruct(derefType(rt)) {
 							x.assign(recvExpr, x.fresh("hv", rt), env)
 						}
 					}
